@@ -358,7 +358,7 @@ class Step:
 
     ``problems`` is a list of (tag, message, data); ``parent[c]`` is the old cell containing new cell c."""
 
-    def __init__(self, kind, p_old, t_old, p_new, t_new, uniform=True, marked=None, disjoint=True):
+    def __init__(self, kind, p_old, t_old, p_new, t_new, uniform=True, marked=None, disjoint=True, unused_ok=()):
         self.kind = kind
         self.problems = []
         d = DIM[kind]
@@ -371,8 +371,10 @@ class Step:
         if len(set(PN)) != len(PN):
             bad(('duplicate-vertices', 'refined mesh has duplicate vertices', {}))
         used = set(v for c in CN for v in c)
-        if used != set(range(len(PN))):
-            bad(('unused-vertices', 'refined mesh has vertices that belong to no cell', {'unused': sorted(set(range(len(PN))) - used)[:10]}))
+        # points that belonged to no cell before (e.g. the shared point array of `m1 @ m2`) stay where they are, unused
+        if set(range(len(PN))) - used != set(int(v) for v in unused_ok):
+            bad(('unused-vertices', 'refined mesh has vertices that belong to no cell (other than those unused before)',
+                 {'unused': sorted(set(range(len(PN))) - used)[:10], 'unused_before': sorted(int(v) for v in unused_ok)[:10]}))
         if PN[:len(PO)] != PO:
             bad(('old-vertices-moved', 'old vertices did not keep index and position', {}))
         if uniform and len(CN) != NCHILD[kind] * len(CO):
